@@ -99,10 +99,22 @@ def canon(s):
 def gen_history(rng):
     K = rng.choice([2, 3])
     return {"K": K, "lam": rng.choice(["s", "a"]), "beta": rng.choice(["s", "a"]),
-            "seed": rng.randrange(2 ** 31), "len": rng.randint(4, 25)}
+            "seed": rng.randrange(2 ** 31), "len": rng.randint(4, 25), "m": rng.choice([2, 3, 5])}
 
 
-def balanced_labels(r, K, empty=None):
+def balanced_labels(r, K, empty=None, m=3):
+    if empty is not None and r.random() < 0.6:
+        # boundary sizes for the donors: exactly 2m, 2m+1, 3m-1, 3m; the rest goes to the last donor
+        others = [k for k in range(K) if k != empty]
+        sizes = {empty: r.choice([0, 1])}
+        left = T - sizes[empty]
+        for k in others[:-1]:
+            sizes[k] = min(r.choice([2 * m, 2 * m, 2 * m + 1, 3 * m - 1, 3 * m]), left - 2)
+            left -= sizes[k]
+        sizes[others[-1]] = left
+        lab = [k for k in range(K) for _ in range(sizes[k])]
+        r.shuffle(lab)
+        return lab
     lab = [k for k in range(K) for _ in range(T // K)]
     lab += [r.randrange(K) for _ in range(T - len(lab))]
     r.shuffle(lab)
@@ -126,7 +138,7 @@ def play(ctx, hist, cm, gl, cla, arguments, model_state):
     lam = 0.1 if hist["lam"] == "s" else np.full((N * W, N * W), 0.1)
     beta = 2.0 if hist["beta"] == "s" else np.full((T,), 2.0)
     args = arguments.UserArguments(sparsity_weight=lam, iteration_limit=5, label_switching_cost=beta,
-                                   min_cluster_size=3, min_meaningful_covariance=0, num_clusters=K,
+                                   min_cluster_size=hist.get("m", 3), min_meaningful_covariance=0, num_clusters=K,
                                    num_processors=1, window_size=W, biased_covariance=False)
     states = [model_state.ModelState.empty_model(args, data)]
     flags = [{"lab": False, "stats": False, "mrf": False, "minsize": 0, "phase": True}]
@@ -137,8 +149,15 @@ def play(ctx, hist, cm, gl, cla, arguments, model_state):
     kinds = set()
     pyrandom.seed(hist["seed"])
     np.random.seed(hist["seed"] % 2 ** 32)
+    force = None
     for _ in range(hist["len"]):
         s = r.randrange(len(states))
+        if force is not None and r.random() < 0.8:
+            s = force
+        elif r.random() < 0.35:
+            fitted = [i for i, f in enumerate(flags) if f["mrf"] and f["lab"]]
+            if fitted:
+                s = r.choice(fitted)
         st, fl = states[s], flags[s]
         choices = ["assign", "assign", "shallow"]
         if fl["lab"]:
@@ -152,6 +171,11 @@ def play(ctx, hist, cm, gl, cla, arguments, model_state):
             elif fl["mrf"]:
                 choices += ["repop", "repop", "repop"]
         op = r.choice(choices)
+        if force == s and fl["mrf"] and partition_ok(st):
+            op = "repop"
+        elif fl["mrf"] and fl["lab"] and force is None and r.random() < 0.4:
+            op = "assign"
+        force = None
         if op == "repop" and not partition_ok(st):
             # repopulation asserts that the member lists match the labels; a state broken by the
             # documented shallow-copy hazard is outside the phase's precondition
@@ -161,8 +185,10 @@ def play(ctx, hist, cm, gl, cla, arguments, model_state):
         input_ok = partition_ok(st)
         new_state = None
         if op == "assign":
-            empty = r.randrange(K) if (fl["mrf"] and r.random() < 0.4) else None
-            lab = balanced_labels(r, K, empty)
+            empty = r.randrange(K) if (fl["mrf"] and r.random() < 0.6) else None
+            if empty is not None:
+                force = s                      # next: repopulate this state (main-loop order)
+            lab = balanced_labels(r, K, empty, hist.get("m", 3))
             if fl["lab"] and r.random() < 0.15:
                 lab = [int(x) for x in st.point_labels]      # equal content: the setter must be a no-op
             keep.append(lab)
